@@ -1403,8 +1403,8 @@ package apd
 //@   pure
 //@   allocates
 //@   ensures [text] DecText(bytes(ret), 0, d.Form, d.Negative, val(d.Coeff), d.Exponent, 71)
-//@   ensures {C13} [parses] d.Form == Finite && inlimitsB(val(d.Coeff), d.Exponent) ==> FinText(bytes(ret), d.Negative, val(d.Coeff), d.Exponent, 69)
-//@   ensures {C13} [parses_special] d.Form != Finite && inv(d) ==> SpecText(bytes(ret), d.Form, d.Negative)
+//@   ensures {C13,C14} [parses] d.Form == Finite && inlimitsB(val(d.Coeff), d.Exponent) ==> FinText(bytes(ret), d.Negative, val(d.Coeff), d.Exponent, 69)
+//@   ensures {C13,C14} [parses_special] d.Form != Finite && inv(d) ==> SpecText(bytes(ret), d.Form, d.Negative)
 
 //@ func (*Decimal).Float64
 //@   trusted strconv.ParseFloat of the text form; the float result is never interpreted by the verifier
@@ -2143,74 +2143,75 @@ package apd
 //@   ensures [rest] ret1 ==> len(bytes(ret0)) == len(bytes(s)) - len(bytes(prefix)) && same(bytes(ret0), 0, bytes(s), len(bytes(prefix)), len(bytes(ret0)))
 //@   ensures [keep] !ret1 ==> ret0 == s
 //@ func (*Decimal).setString
-//@   props C04 C06 C01 C07 C13
+//@   props C04 C06 C01 C07 C13 C14
 //@   requires writable(d) && c != nil
 //@   assigns d
 //@   ghost gneg: bool, gC: int, gE: int, gech: int
-//@   ensures {C13} [rt_inf] DecText(bytes(s), 0, Infinite, gneg, 0, 0, 71) ==> ret1 == nil && ret0 == 0 && d.Form == Infinite && d.Negative == gneg && val(d.Coeff) == 0 && d.Exponent == 0
-//@   ensures {C13} [rt_nan] DecText(bytes(s), 0, NaN, gneg, 0, 0, 71) ==> ret1 == nil && ret0 == 0 && d.Form == NaN && d.Negative == gneg && val(d.Coeff) == 0 && d.Exponent == 0
+//@   ensures {C13,C14} [rt_inf] DecText(bytes(s), 0, Infinite, gneg, 0, 0, 71) ==> ret1 == nil && ret0 == 0 && d.Form == Infinite && d.Negative == gneg && val(d.Coeff) == 0 && d.Exponent == 0
+//@   ensures {C13,C14} [rt_nan] DecText(bytes(s), 0, NaN, gneg, 0, 0, 71) ==> ret1 == nil && ret0 == 0 && d.Form == NaN && d.Negative == gneg && val(d.Coeff) == 0 && d.Exponent == 0
 // Finite texts (C13): if the text is what the formatter writes for (gneg, gC, gE) - plain notation with exponent <= 0, or
 // scientific notation with the letter E or e - and the value lies inside the context's limits, the parse succeeds and
 // yields exactly that sign, coefficient and exponent. TXT: the optional sign. The ghost assertions name the texts handed to
 // the two number parsers: the mantissa is gC's decimal text behind z leading zeros, the exponent text is a sign and the
 // decimal text of |gE + nd - 1|.
-//@   ensures {C13} [rt_int] ctxsane(c) && inlimits0(c, gC, 0) && TXT(bytes(s), gneg) && PlainText(bytes(s), ite(gneg, 1, 0), gC, 0) ==> RT(d, ret0, ret1, gneg, gC, 0)
-//@   assert before (*BigInt).SetString#1: {C13} [mant_int] ctxsane(c) && inlimits0(c, gC, 0) && TXT(bytes(orig), gneg) && PlainText(bytes(orig), ite(gneg, 1, 0), gC, 0) ==> uf_utext(now(s), 0, gC) == 1
-//@   ensures {C13} [rt_small] ctxsane(c) && inlimits0(c, gC, gE) && gE < 0 && -gE >= nd10(gC) && TXT(bytes(s), gneg) && PlainText(bytes(s), ite(gneg, 1, 0), gC, gE) ==> RT(d, ret0, ret1, gneg, gC, gE)
-//@   assert before (*BigInt).SetString#1: {C13} [mant_small] ctxsane(c) && inlimits0(c, gC, gE) && gE < 0 && -gE >= nd10(gC) && TXT(bytes(orig), gneg) && PlainText(bytes(orig), ite(gneg, 1, 0), gC, gE) ==> uf_utext(now(s), 1 - gE - nd10(gC), gC) == 1
-//@   ensures {C13} [rt_point] ctxsane(c) && inlimits0(c, gC, gE) && gE < 0 && -gE < nd10(gC) && TXT(bytes(s), gneg) && PlainText(bytes(s), ite(gneg, 1, 0), gC, gE) ==> RT(d, ret0, ret1, gneg, gC, gE)
-//@   assert before (*BigInt).SetString#1: {C13} [mant_point] ctxsane(c) && inlimits0(c, gC, gE) && gE < 0 && -gE < nd10(gC) && TXT(bytes(orig), gneg) && PlainText(bytes(orig), ite(gneg, 1, 0), gC, gE) ==> uf_utext(now(s), 0, gC) == 1
-//@   ensures {C13} [rt_sci] ctxsane(c) && inlimits0(c, gC, gE) && nd10(gC) <= 100001 && (gech == 69 || gech == 101) && TXT(bytes(s), gneg) && SciText(bytes(s), ite(gneg, 1, 0), gC, gE, gech) ==> RT(d, ret0, ret1, gneg, gC, gE)
-//@   ensures {C13} [rt_sci_long] ctxsane(c) && inlimits0(c, gC, gE) && nd10(gC) > 100001 && (gech == 69 || gech == 101) && TXT(bytes(s), gneg) && SciText(bytes(s), ite(gneg, 1, 0), gC, gE, gech) ==> RT(d, ret0, ret1, gneg, gC, gE)
-//@   assert before strconv.ParseInt#1: {C13} [expo_sci] ctxsane(c) && inlimits0(c, gC, gE) && (gech == 69 || gech == 101) && TXT(bytes(orig), gneg) && SciText(bytes(orig), ite(gneg, 1, 0), gC, gE, gech) ==> uf_stext(arg0, ite(gE + nd10(gC) - 1 < 0, 45, 43), abs(gE + nd10(gC) - 1)) == 1
-//@   assert before (*BigInt).SetString#1: {C13} [mant_sci] ctxsane(c) && inlimits0(c, gC, gE) && (gech == 69 || gech == 101) && TXT(bytes(orig), gneg) && SciText(bytes(orig), ite(gneg, 1, 0), gC, gE, gech) ==> uf_utext(now(s), 0, gC) == 1
-//@   ensures {C13} [rt_snan] DecText(bytes(s), 0, NaNSignaling, gneg, 0, 0, 71) ==> ret1 == nil && ret0 == 0 && d.Form == NaNSignaling && d.Negative == gneg && val(d.Coeff) == 0 && d.Exponent == 0
+//@   ensures {C13,C14} [rt_int] ctxsane(c) && inlimits0(c, gC, 0) && TXT(bytes(s), gneg) && PlainText(bytes(s), ite(gneg, 1, 0), gC, 0) ==> RT(d, ret0, ret1, gneg, gC, 0)
+//@   assert before (*BigInt).SetString#1: {C13,C14} [mant_int] ctxsane(c) && inlimits0(c, gC, 0) && TXT(bytes(orig), gneg) && PlainText(bytes(orig), ite(gneg, 1, 0), gC, 0) ==> uf_utext(now(s), 0, gC) == 1
+//@   ensures {C13,C14} [rt_small] ctxsane(c) && inlimits0(c, gC, gE) && gE < 0 && -gE >= nd10(gC) && TXT(bytes(s), gneg) && PlainText(bytes(s), ite(gneg, 1, 0), gC, gE) ==> RT(d, ret0, ret1, gneg, gC, gE)
+//@   assert before (*BigInt).SetString#1: {C13,C14} [mant_small] ctxsane(c) && inlimits0(c, gC, gE) && gE < 0 && -gE >= nd10(gC) && TXT(bytes(orig), gneg) && PlainText(bytes(orig), ite(gneg, 1, 0), gC, gE) ==> uf_utext(now(s), 1 - gE - nd10(gC), gC) == 1
+//@   ensures {C13,C14} [rt_point] ctxsane(c) && inlimits0(c, gC, gE) && gE < 0 && -gE < nd10(gC) && TXT(bytes(s), gneg) && PlainText(bytes(s), ite(gneg, 1, 0), gC, gE) ==> RT(d, ret0, ret1, gneg, gC, gE)
+//@   assert before (*BigInt).SetString#1: {C13,C14} [mant_point] ctxsane(c) && inlimits0(c, gC, gE) && gE < 0 && -gE < nd10(gC) && TXT(bytes(orig), gneg) && PlainText(bytes(orig), ite(gneg, 1, 0), gC, gE) ==> uf_utext(now(s), 0, gC) == 1
+//@   ensures {C13,C14} [rt_sci] ctxsane(c) && inlimits0(c, gC, gE) && nd10(gC) <= 100001 && (gech == 69 || gech == 101) && TXT(bytes(s), gneg) && SciText(bytes(s), ite(gneg, 1, 0), gC, gE, gech) ==> RT(d, ret0, ret1, gneg, gC, gE)
+//@   ensures {C13,C14} [rt_sci_long] ctxsane(c) && inlimits0(c, gC, gE) && nd10(gC) > 100001 && (gech == 69 || gech == 101) && TXT(bytes(s), gneg) && SciText(bytes(s), ite(gneg, 1, 0), gC, gE, gech) ==> RT(d, ret0, ret1, gneg, gC, gE)
+//@   assert before strconv.ParseInt#1: {C13,C14} [expo_sci] ctxsane(c) && inlimits0(c, gC, gE) && (gech == 69 || gech == 101) && TXT(bytes(orig), gneg) && SciText(bytes(orig), ite(gneg, 1, 0), gC, gE, gech) ==> uf_stext(arg0, ite(gE + nd10(gC) - 1 < 0, 45, 43), abs(gE + nd10(gC) - 1)) == 1
+//@   assert before (*BigInt).SetString#1: {C13,C14} [mant_sci] ctxsane(c) && inlimits0(c, gC, gE) && (gech == 69 || gech == 101) && TXT(bytes(orig), gneg) && SciText(bytes(orig), ite(gneg, 1, 0), gC, gE, gech) ==> uf_utext(now(s), 0, gC) == 1
+//@   ensures {C13,C14} [rt_snan] DecText(bytes(s), 0, NaNSignaling, gneg, 0, 0, 71) ==> ret1 == nil && ret0 == 0 && d.Form == NaNSignaling && d.Negative == gneg && val(d.Coeff) == 0 && d.Exponent == 0
 //@   ensures [wf] ret1 == nil ==> inv(d)
 //@   ensures [closed] closed(ret0)
 //@ func (*Decimal).SetString
-//@   props C04 C06 C13
+//@   props C04 C06 C13 C14
 //@   exported
 //@   assert before (*Context).SetString#1: [basectx] BaseContext.Precision == 0 && BaseContext.MaxExponent == 100000 && BaseContext.MinExponent == -100000
 //@   requires writable(d)
 //@   assigns d
 //@   ghost gneg: bool, gC: int, gE: int, gech: int, gform: int
-//@   ensures {C13} [rt_fin] inlimitsB(gC, gE) && FinText(bytes(s), gneg, gC, gE, gech) ==> ret2 == nil && ret0 == d && ret1 == 0 && d.Form == Finite && d.Negative == gneg && val(d.Coeff) == gC && d.Exponent == gE
-//@   ensures {C13} [rt_spec] SpecText(bytes(s), gform, gneg) ==> ret2 == nil && ret0 == d && d.Form == gform && d.Negative == gneg
+//@   ensures {C13,C14} [rt_fin] inlimitsB(gC, gE) && FinText(bytes(s), gneg, gC, gE, gech) ==> ret2 == nil && ret0 == d && ret1 == 0 && d.Form == Finite && d.Negative == gneg && val(d.Coeff) == gC && d.Exponent == gE
+//@   ensures {C13,C14} [rt_spec] SpecText(bytes(s), gform, gneg) ==> ret2 == nil && ret0 == d && d.Form == gform && d.Negative == gneg
 //@   ensures [wf] ret2 == nil ==> inv(d) && ret0 == d
 //@ func (*Context).SetString
-//@   props C04 C06 C07 C03 C01 C13
+//@   props C04 C06 C07 C03 C01 C13 C14
 //@   exported
 //@   requires writable(d)
 //@   assigns d
 //@   ghost gneg: bool, gC: int, gE: int, gech: int, gform: int
-//@   ensures {C13} [rt_fin] p0ctx(c) && inlimits0(c, gC, gE) && FinText(bytes(s), gneg, gC, gE, gech) ==> ret2 == nil && ret0 == d && ret1 == 0 && d.Form == Finite && d.Negative == gneg && val(d.Coeff) == gC && d.Exponent == gE
-//@   ensures {C13} [rt_spec] p0ctx(c) && SpecText(bytes(s), gform, gneg) ==> ret2 == nil && ret0 == d && d.Form == gform && d.Negative == gneg
+//@   ensures {C13,C14} [rt_fin] p0ctx(c) && inlimits0(c, gC, gE) && FinText(bytes(s), gneg, gC, gE, gech) ==> ret2 == nil && ret0 == d && ret1 == 0 && d.Form == Finite && d.Negative == gneg && val(d.Coeff) == gC && d.Exponent == gE
+//@   ensures {C13,C14} [rt_spec] p0ctx(c) && SpecText(bytes(s), gform, gneg) ==> ret2 == nil && ret0 == d && d.Form == gform && d.Negative == gneg
 //@   ensures [wf] ret2 == nil ==> inv(d) && ret0 == d
 //@   ensures [fits] wfctx(c) && ret2 == nil && !hassys(ret1) ==> fits(c, d)
 //@   ensures [trap] ret2 == nil ==> !trapped(c, ret1)
 //@   ensures [closed] closed(ret1)
 //@ func (*Context).NewFromString
-//@   props C04 C01 C07 C13
+//@   props C04 C01 C07 C13 C14
 //@   exported
 //@   assigns nothing
 //@   allocates
 //@   ghost gneg: bool, gC: int, gE: int, gech: int, gform: int
-//@   ensures {C13} [rt_fin] p0ctx(c) && inlimits0(c, gC, gE) && FinText(bytes(s), gneg, gC, gE, gech) ==> ret2 == nil && ret0 != nil && ret1 == 0 && ret0.Form == Finite && ret0.Negative == gneg && val(ret0.Coeff) == gC && ret0.Exponent == gE
-//@   ensures {C13} [rt_spec] p0ctx(c) && SpecText(bytes(s), gform, gneg) ==> ret2 == nil && ret0 != nil && ret0.Form == gform && ret0.Negative == gneg
+//@   ensures {C13,C14} [rt_fin] p0ctx(c) && inlimits0(c, gC, gE) && FinText(bytes(s), gneg, gC, gE, gech) ==> ret2 == nil && ret0 != nil && ret1 == 0 && ret0.Form == Finite && ret0.Negative == gneg && val(ret0.Coeff) == gC && ret0.Exponent == gE
+//@   ensures {C13,C14} [rt_spec] p0ctx(c) && SpecText(bytes(s), gform, gneg) ==> ret2 == nil && ret0 != nil && ret0.Form == gform && ret0.Negative == gneg
 //@   ensures [wf] ret2 == nil ==> ret0 != nil && inv(ret0)
 //@ func NewFromString
-//@   props C04 C01 C07 C13
+//@   props C04 C01 C07 C13 C14
 //@   exported
 //@   assigns nothing
 //@   allocates
 //@   assert before (*Context).NewFromString#1: [basectx] BaseContext.Precision == 0 && BaseContext.MaxExponent == 100000 && BaseContext.MinExponent == -100000
 //@   ghost gneg: bool, gC: int, gE: int, gech: int, gform: int
-//@   ensures {C13} [rt_fin] inlimitsB(gC, gE) && FinText(bytes(s), gneg, gC, gE, gech) ==> ret2 == nil && ret0 != nil && ret1 == 0 && ret0.Form == Finite && ret0.Negative == gneg && val(ret0.Coeff) == gC && ret0.Exponent == gE
-//@   ensures {C13} [rt_spec] SpecText(bytes(s), gform, gneg) ==> ret2 == nil && ret0 != nil && ret0.Form == gform && ret0.Negative == gneg
+//@   ensures {C13,C14} [rt_fin] inlimitsB(gC, gE) && FinText(bytes(s), gneg, gC, gE, gech) ==> ret2 == nil && ret0 != nil && ret1 == 0 && ret0.Form == Finite && ret0.Negative == gneg && val(ret0.Coeff) == gC && ret0.Exponent == gE
+//@   ensures {C13,C14} [rt_spec] SpecText(bytes(s), gform, gneg) ==> ret2 == nil && ret0 != nil && ret0.Form == gform && ret0.Negative == gneg
 //@   ensures [wf] ret2 == nil ==> ret0 != nil && inv(ret0)
 // ---------------------------------------------------------------- formatting: no panic (C04); the text itself is C13/C14
 // Etail(s, m, e, adj): s ends at m with the exponent part: the letter e, a sign, the decimal text of |adj|
-//@ define Etail(s: []byte, m: int, e: int, adj: int): bool = s[m] == e && s[m + 1] == ite(adj < 0, 45, 43) && len(s) == m + 2 + nd10(abs(adj)) && dseg(s, m + 2, abs(adj), 0, nd10(abs(adj)))
+//@ define EtailTo(s: []byte, m: int, e: int, adj: int, end: int): bool = s[m] == e && s[m + 1] == ite(adj < 0, 45, 43) && end == m + 2 + nd10(abs(adj)) && dseg(s, m + 2, abs(adj), 0, nd10(abs(adj)))
+//@ define Etail(s: []byte, m: int, e: int, adj: int): bool = EtailTo(s, m, e, adj, len(s))
 //@ func strconv.AppendUint
 //@   trusted strconv (panics for a base outside 2..36; appends at least one digit - in dst's spare cells when they suffice, else in a new array; in base 10 the digits are the decimal text of i: uf_dchar(i, k) is by definition its k-th character)
 //@   requires 2 <= base && base <= 36
@@ -2254,8 +2255,10 @@ package apd
 // the exponent part with the adjusted exponent. plainG is the choice the General Decimal Arithmetic specification prescribes
 // for to-scientific-string (exponent <= 0 and adjusted exponent >= -6), plus the documented exception for zeros with an
 // exponent in [-2000, -1] - written from the property statement (C14), not from the code.
-//@ define PlainText(s: []byte, p: int, C: int, E: int): bool = ite(E >= 0, len(s) == p + nd10(C) + E && dseg(s, p, C, 0, nd10(C)) && filled(s, p + nd10(C), E, 48), ite(-E >= nd10(C), len(s) == p + 2 - E && s[p] == 48 && s[p + 1] == 46 && filled(s, p + 2, -E - nd10(C), 48) && dseg(s, p + 2 - E - nd10(C), C, 0, nd10(C)), len(s) == p + nd10(C) + 1 && dseg(s, p, C, 0, nd10(C) + E) && s[p + nd10(C) + E] == 46 && dseg(s, p + nd10(C) + E + 1, C, nd10(C) + E, -E)))
-//@ define SciText(s: []byte, p: int, C: int, E: int, ech: int): bool = s[p] == uf_dchar(C, 0) && ite(nd10(C) == 1, Etail(s, p + 1, ech, E + nd10(C) - 1), s[p + 1] == 46 && dseg(s, p + 2, C, 1, nd10(C) - 1) && Etail(s, p + nd10(C) + 1, ech, E + nd10(C) - 1))
+//@ define PlainTo(s: []byte, p: int, C: int, E: int, end: int): bool = ite(E >= 0, end == p + nd10(C) + E && dseg(s, p, C, 0, nd10(C)) && filled(s, p + nd10(C), E, 48), ite(-E >= nd10(C), end == p + 2 - E && s[p] == 48 && s[p + 1] == 46 && filled(s, p + 2, -E - nd10(C), 48) && dseg(s, p + 2 - E - nd10(C), C, 0, nd10(C)), end == p + nd10(C) + 1 && dseg(s, p, C, 0, nd10(C) + E) && s[p + nd10(C) + E] == 46 && dseg(s, p + nd10(C) + E + 1, C, nd10(C) + E, -E)))
+//@ define PlainText(s: []byte, p: int, C: int, E: int): bool = PlainTo(s, p, C, E, len(s))
+//@ define SciTo(s: []byte, p: int, C: int, E: int, ech: int, end: int): bool = s[p] == uf_dchar(C, 0) && ite(nd10(C) == 1, EtailTo(s, p + 1, ech, E + nd10(C) - 1, end), s[p + 1] == 46 && dseg(s, p + 2, C, 1, nd10(C) - 1) && EtailTo(s, p + nd10(C) + 1, ech, E + nd10(C) - 1, end))
+//@ define SciText(s: []byte, p: int, C: int, E: int, ech: int): bool = SciTo(s, p, C, E, ech, len(s))
 //@ define plainG(C: int, E: int): bool = (E <= 0 && E + nd10(C) - 1 >= -6) || (C == 0 && -2000 <= E && E <= -1)
 //@ define knownverb(f: int): bool = f == 101 || f == 69 || f == 102 || f == 103 || f == 71
 // DecText(s, n0, form, neg, C, E, f): from position n0 to its end, s is the text of the decimal (form, neg, C, E) under the verb f
@@ -2301,14 +2304,48 @@ package apd
 //@   exported
 //@   pure
 //@ func writeMultiple
-//@   props C04
+//@   props C04 C14
 //@   pure
+//@   allocates
 //@   sample count <= 1000
 //@   loop 1 decreases count
+//@   loop 1 invariant count <= old(count) && (old(count) >= 0 ==> count >= 0) && wlogok(s) && len(wlog(s)) >= old(len(wlog(s))) && same(wlog(s), 0, old(wlog(s)), 0, old(len(wlog(s))))
+//@   loop 1 invariant len(b) == len(bytes(text)) && same(b, 0, bytes(text), 0, len(b)) && allocated(b)
+//@   loop 1 invariant len(bytes(text)) == 1 ==> len(wlog(s)) == old(len(wlog(s))) + old(count) - count && filled(wlog(s), old(len(wlog(s))), old(count) - count, bytes(text)[0])
+//@   loop 1 invariant old(count) == 1 ==> (count == 1 && len(wlog(s)) == old(len(wlog(s)))) || (count == 0 && len(wlog(s)) == old(len(wlog(s))) + len(bytes(text)) && same(wlog(s), old(len(wlog(s))), bytes(text), 0, len(bytes(text))))
+//@   ensures [keep] len(wlog(s)) >= old(len(wlog(s))) && same(wlog(s), 0, old(wlog(s)), 0, old(len(wlog(s))))
+//@   ensures [none] count <= 0 || len(bytes(text)) == 0 ==> len(wlog(s)) == old(len(wlog(s)))
+//@   ensures [one] count == 1 ==> len(wlog(s)) == old(len(wlog(s))) + len(bytes(text)) && same(wlog(s), old(len(wlog(s))), bytes(text), 0, len(bytes(text)))
+//@   ensures [char] count >= 0 && len(bytes(text)) == 1 ==> len(wlog(s)) == old(len(wlog(s))) + count && filled(wlog(s), old(len(wlog(s))), count, bytes(text)[0])
+// Format (C14, last sentence): what is written to the fmt.State is the Text form under the verb (F as f; v and s as G),
+// with the flags and the width applied as fmt applies them to numbers: a sign is written for a negative value, else "+"
+// under the + flag, else a space under the space flag; when a width is given and the text is shorter the rest is padding:
+// under the - flag spaces on the right; else under the 0 flag (finite values only) zeros between sign and digits; else
+// spaces on the left. wlog(s) is the ghost log of the state; stflag/stwidth/sthaswidth are its attributes.
+//@ define FVerb(f: int): int = ite(f == 70, 102, ite(f == 118 || f == 115, 71, f))
+//@ define PlainLen(C: int, E: int): int = ite(E >= 0, nd10(C) + E, ite(-E >= nd10(C), 2 - E, nd10(C) + 1))
+//@ define SciLen(C: int, E: int): int = ite(nd10(C) == 1, 1, nd10(C) + 1) + 2 + nd10(abs(E + nd10(C) - 1))
+//@ define IsPlain(C: int, E: int, f: int): bool = f == 102 || ((f == 71 || f == 103) && plainG(C, E))
+//@ define BodyLen(form: int, C: int, E: int, f: int): int = ite(form == NaN, 3, ite(form == NaNSignaling, 4, ite(form == Infinite, 8, ite(IsPlain(C, E, f), PlainLen(C, E), SciLen(C, E)))))
+//@ define BodyTo(s: []byte, p: int, end: int, form: int, C: int, E: int, f: int): bool = ite(form == NaN, end == p + 3 && s[p] == 78 && s[p + 1] == 97 && s[p + 2] == 78, ite(form == NaNSignaling, end == p + 4 && s[p] == 115 && s[p + 1] == 78 && s[p + 2] == 97 && s[p + 3] == 78, ite(form == Infinite, end == p + 8 && s[p] == 73 && s[p + 1] == 110 && s[p + 2] == 102 && s[p + 3] == 105 && s[p + 4] == 110 && s[p + 5] == 105 && s[p + 6] == 116 && s[p + 7] == 121, ite(IsPlain(C, E, f), PlainTo(s, p, C, E, end), SciTo(s, p, C, E, ite(f == 71, 69, ite(f == 103, 101, f)), end)))))
+//@ define SignLen(s: fmtstate, neg: bool): int = ite(neg || stflag(s, 43) || stflag(s, 32), 1, 0)
+//@ define SignChar(s: fmtstate, neg: bool): int = ite(neg, 45, ite(stflag(s, 43), 43, 32))
+//@ define Pad(s: fmtstate, n: int): int = ite(sthaswidth(s) && stwidth(s) > n, stwidth(s) - n, 0)
 //@ func (*Decimal).Format
-//@   props C04
+//@   props C04 C14
 //@   exported
 //@   requires inv(d)
+//@   pure
+//@   allocates
+//@   assert before writeMultiple#1: [parts1] knownverb(FVerb(format)) ==> len(bytes(sign)) == SignLen(s, d.Negative) && (SignLen(s, d.Negative) == 1 ==> bytes(sign)[0] == SignChar(s, d.Negative)) && len(buf) == BodyLen(d.Form, val(d.Coeff), d.Exponent, FVerb(format)) && BodyTo(buf, 0, len(buf), d.Form, val(d.Coeff), d.Exponent, FVerb(format)) && padding == Pad(s, SignLen(s, d.Negative) + BodyLen(d.Form, val(d.Coeff), d.Exponent, FVerb(format))) && allocated(buf)
+//@   assert before writeMultiple#3: [parts3] knownverb(FVerb(format)) ==> len(bytes(sign)) == SignLen(s, d.Negative) && (SignLen(s, d.Negative) == 1 ==> bytes(sign)[0] == SignChar(s, d.Negative)) && len(buf) == BodyLen(d.Form, val(d.Coeff), d.Exponent, FVerb(format)) && BodyTo(buf, 0, len(buf), d.Form, val(d.Coeff), d.Exponent, FVerb(format)) && padding == Pad(s, SignLen(s, d.Negative) + BodyLen(d.Form, val(d.Coeff), d.Exponent, FVerb(format))) && allocated(buf)
+//@   assert before writeMultiple#5: [parts5] knownverb(FVerb(format)) ==> len(bytes(sign)) == SignLen(s, d.Negative) && (SignLen(s, d.Negative) == 1 ==> bytes(sign)[0] == SignChar(s, d.Negative)) && len(buf) == BodyLen(d.Form, val(d.Coeff), d.Exponent, FVerb(format)) && BodyTo(buf, 0, len(buf), d.Form, val(d.Coeff), d.Exponent, FVerb(format)) && padding == Pad(s, SignLen(s, d.Negative) + BodyLen(d.Form, val(d.Coeff), d.Exponent, FVerb(format))) && allocated(buf)
+//@   ensures [keep] len(wlog(s)) >= old(len(wlog(s))) && same(wlog(s), 0, old(wlog(s)), 0, old(len(wlog(s))))
+//@   ensures [len] knownverb(FVerb(format)) ==> len(wlog(s)) == old(len(wlog(s))) + SignLen(s, d.Negative) + BodyLen(d.Form, val(d.Coeff), d.Exponent, FVerb(format)) + Pad(s, SignLen(s, d.Negative) + BodyLen(d.Form, val(d.Coeff), d.Exponent, FVerb(format)))
+//@   ensures [left] knownverb(FVerb(format)) && stflag(s, 45) && !(stflag(s, 48) && d.Form == Finite) ==> (SignLen(s, d.Negative) == 1 ==> wlog(s)[old(len(wlog(s)))] == SignChar(s, d.Negative)) && BodyTo(wlog(s), old(len(wlog(s))) + SignLen(s, d.Negative), old(len(wlog(s))) + SignLen(s, d.Negative) + BodyLen(d.Form, val(d.Coeff), d.Exponent, FVerb(format)), d.Form, val(d.Coeff), d.Exponent, FVerb(format)) && filled(wlog(s), old(len(wlog(s))) + SignLen(s, d.Negative) + BodyLen(d.Form, val(d.Coeff), d.Exponent, FVerb(format)), Pad(s, SignLen(s, d.Negative) + BodyLen(d.Form, val(d.Coeff), d.Exponent, FVerb(format))), 32)
+//@   ensures [left0] knownverb(FVerb(format)) && stflag(s, 45) && stflag(s, 48) && d.Form == Finite ==> (SignLen(s, d.Negative) == 1 ==> wlog(s)[old(len(wlog(s)))] == SignChar(s, d.Negative)) && BodyTo(wlog(s), old(len(wlog(s))) + SignLen(s, d.Negative), old(len(wlog(s))) + SignLen(s, d.Negative) + BodyLen(d.Form, val(d.Coeff), d.Exponent, FVerb(format)), d.Form, val(d.Coeff), d.Exponent, FVerb(format)) && filled(wlog(s), old(len(wlog(s))) + SignLen(s, d.Negative) + BodyLen(d.Form, val(d.Coeff), d.Exponent, FVerb(format)), Pad(s, SignLen(s, d.Negative) + BodyLen(d.Form, val(d.Coeff), d.Exponent, FVerb(format))), 32)
+//@   ensures [zero] knownverb(FVerb(format)) && !stflag(s, 45) && stflag(s, 48) && d.Form == Finite ==> (SignLen(s, d.Negative) == 1 ==> wlog(s)[old(len(wlog(s)))] == SignChar(s, d.Negative)) && filled(wlog(s), old(len(wlog(s))) + SignLen(s, d.Negative), Pad(s, SignLen(s, d.Negative) + BodyLen(d.Form, val(d.Coeff), d.Exponent, FVerb(format))), 48) && BodyTo(wlog(s), old(len(wlog(s))) + SignLen(s, d.Negative) + Pad(s, SignLen(s, d.Negative) + BodyLen(d.Form, val(d.Coeff), d.Exponent, FVerb(format))), len(wlog(s)), d.Form, val(d.Coeff), d.Exponent, FVerb(format))
+//@   ensures [right] knownverb(FVerb(format)) && !stflag(s, 45) && !(stflag(s, 48) && d.Form == Finite) ==> filled(wlog(s), old(len(wlog(s))), Pad(s, SignLen(s, d.Negative) + BodyLen(d.Form, val(d.Coeff), d.Exponent, FVerb(format))), 32) && (SignLen(s, d.Negative) == 1 ==> wlog(s)[old(len(wlog(s))) + Pad(s, SignLen(s, d.Negative) + BodyLen(d.Form, val(d.Coeff), d.Exponent, FVerb(format)))] == SignChar(s, d.Negative)) && BodyTo(wlog(s), old(len(wlog(s))) + Pad(s, SignLen(s, d.Negative) + BodyLen(d.Form, val(d.Coeff), d.Exponent, FVerb(format))) + SignLen(s, d.Negative), len(wlog(s)), d.Form, val(d.Coeff), d.Exponent, FVerb(format))
 //@ func fmtE
 //@   props C04 C06 C18 C14
 //@   requires d != nil && len(digits) >= 1 && apart(digits, buf)
@@ -2339,8 +2376,8 @@ package apd
 //@   pure
 //@   allocates
 //@   ensures [text] DecText(bytes(ret), 0, d.Form, d.Negative, val(d.Coeff), d.Exponent, format)
-//@   ensures {C13} [parses] d.Form == Finite && inlimitsB(val(d.Coeff), d.Exponent) && (format == 71 || format == 103 || ((format == 69 || format == 101) && nd10(val(d.Coeff)) <= 100001)) ==> FinText(bytes(ret), d.Negative, val(d.Coeff), d.Exponent, ite(format == 71, 69, ite(format == 103, 101, format)))
-//@   ensures {C13} [parses_special] d.Form != Finite && inv(d) ==> SpecText(bytes(ret), d.Form, d.Negative)
+//@   ensures {C13,C14} [parses] d.Form == Finite && inlimitsB(val(d.Coeff), d.Exponent) && (format == 71 || format == 103 || ((format == 69 || format == 101) && nd10(val(d.Coeff)) <= 100001)) ==> FinText(bytes(ret), d.Negative, val(d.Coeff), d.Exponent, ite(format == 71, 69, ite(format == 103, 101, format)))
+//@   ensures {C13,C14} [parses_special] d.Form != Finite && inv(d) ==> SpecText(bytes(ret), d.Form, d.Negative)
 // ---------------------------------------------------------------- byte-level conversions: no panic, well-formed results (the bytes themselves are C13)
 //@ func math/big.(*Int).FillBytes
 //@   trusted math/big (panics when the magnitude does not fit in buf; fills buf with the big-endian magnitude, zero-extended, and returns buf)
@@ -2575,13 +2612,13 @@ package apd
 //@   requires inv(d)
 //@   pure
 //@ func (*Decimal).UnmarshalText
-//@   props C04 C06 C13
+//@   props C04 C06 C13 C14
 //@   exported
 //@   requires writable(d)
 //@   assigns d
 //@   ghost gneg: bool, gC: int, gE: int, gech: int, gform: int
-//@   ensures {C13} [rt_fin] inlimitsB(gC, gE) && FinText(b, gneg, gC, gE, gech) ==> ret == nil && d.Form == Finite && d.Negative == gneg && val(d.Coeff) == gC && d.Exponent == gE
-//@   ensures {C13} [rt_spec] SpecText(b, gform, gneg) ==> ret == nil && d.Form == gform && d.Negative == gneg
+//@   ensures {C13,C14} [rt_fin] inlimitsB(gC, gE) && FinText(b, gneg, gC, gE, gech) ==> ret == nil && d.Form == Finite && d.Negative == gneg && val(d.Coeff) == gC && d.Exponent == gE
+//@   ensures {C13,C14} [rt_spec] SpecText(b, gform, gneg) ==> ret == nil && d.Form == gform && d.Negative == gneg
 //@   ensures [wf] ret == nil ==> inv(d)
 //@ func (*Decimal).MarshalText
 //@   props C04 C14
@@ -2589,5 +2626,5 @@ package apd
 //@   nilable d
 //@   requires d != nil ==> inv(d)
 //@   ensures [text] d != nil ==> ret1 == nil && DecText(ret0, 0, d.Form, d.Negative, val(d.Coeff), d.Exponent, 71)
-//@   ensures {C13} [parses] d != nil && d.Form == Finite && inlimitsB(val(d.Coeff), d.Exponent) ==> FinText(ret0, d.Negative, val(d.Coeff), d.Exponent, 69)
-//@   ensures {C13} [parses_special] d != nil && d.Form != Finite ==> SpecText(ret0, d.Form, d.Negative)
+//@   ensures {C13,C14} [parses] d != nil && d.Form == Finite && inlimitsB(val(d.Coeff), d.Exponent) ==> FinText(ret0, d.Negative, val(d.Coeff), d.Exponent, 69)
+//@   ensures {C13,C14} [parses_special] d != nil && d.Form != Finite ==> SpecText(ret0, d.Form, d.Negative)
